@@ -14,7 +14,7 @@ plan('C14',
          Job(H, 'hist', 'plain', quick=48, thorough=600, shards=(16, 16), batch=4, case_timeout=120),
      ],
      assumptions=COMMON_ASSUME + ['accept events are taken from the ASL_VERIF hook placed right after accept() in the accept loop; serve events from the harness subclass; all events pass through one mutex, which gives the total order the checker uses',
-                                  'clients are raw POSIX sockets in harness threads; a client that got its echo must see EOF within 8 s of wall-clock time (the library closes the socket in the same thread right after serve() returns)',
+                                  'clients are raw POSIX sockets in harness threads; a client that got its echo must see EOF within 30 s of wall-clock time (the library closes the socket in the same thread right after serve() returns)',
                                   'a Unix-socket server\'s path disappears when the first accepted connection is destroyed (observed, outside the statement): later Unix clients fail to connect and are not "accepted connections"',
                                   'TSan suppressions cover only SocketServer::stop / running (plain bool flags polled across opaque calls); their behaviour is what the event-log checker decides'])
 T('C14', 'offline checker over a totally ordered event log (hook-observed accepts, serve entries/exits, client echoes/EOFs, stop/destroy) across generated server histories with seeded jitter, under ASan, TSan and -O2',
